@@ -113,7 +113,7 @@ Print Assumptions C07_inbound.
     does NOT select the session (the commit happens only on a registry hit), so the connection stays
     not-selected for the gate and for inbound data. *)
 Theorem C07_orphan_select_rsp_no_commit : forall p s n f, f_pt f = 0 -> f_body f = [] ->
-  (f_st f = 2 \/ f_st f = 4 \/ f_st f = 6) -> reg_get (gen s) (f_sys f) (reg s) = None ->
+  (f_st f = 2 \/ f_st f = 4 \/ f_st f = 6) -> route_ctl p s f = None ->
   dispatch p s n f = (enq_int s (reject_not_open f), []) /\
   st (enq_int s (reject_not_open f)) = st s /\ calls (enq_int s (reject_not_open f)) = calls s /\
   f_st (reject_not_open f) = 7 /\ f_b3 (reject_not_open f) = 3 /\ f_b2 (reject_not_open f) = f_st f /\
@@ -135,9 +135,15 @@ Theorem C07_select_req_commits : forall p s n f, is_select_req f = true -> st s 
 Proof. exact select_req_commits. Qed.
 
 Theorem C07_select_rsp_commits : forall p s n f id, f_pt f = 0 -> f_st f = 2 -> f_b3 f = 0 -> f_body f = [] ->
-  reg_get (gen s) (f_sys f) (reg s) = Some id -> st s = NS ->
+  route_ctl p s f = Some id -> st s = NS ->
   st (fst (dispatch p s n f)) = SEL.
 Proof. exact select_rsp_commits. Qed.
+
+(* [route_ctl]: the registry hit of a control response = an entry under its system bytes in the
+   current generation which, with the data-only registry (DW), is not a data transaction's *)
+Theorem C07_route_ctl_spec : forall p s f id, route_ctl p s f = Some id <->
+  reg_get (gen s) (f_sys f) (reg s) = Some id /\ DW p && data_waiter s id = false.
+Proof. exact route_ctl_spec. Qed.
 
 (** ... and from then on, for EVERY interleaving of senders, async sender, timers, observation
     points and further peer data frames (no lifecycle action, no further control frame), every
@@ -176,7 +182,7 @@ Proof. split; vm_compute; reflexivity. Qed.
 (** Non-vacuity. Connected, not selected: a synchronous W-bit send is refused at B1 with one drop and
     nothing on the wire; an inbound data frame gets Reject(4); then Select.req ++ two data frames are
     dispatched and both data frames reach the handler. *)
-Definition c07_cfg : cfg := mkCfg 45000 5000 1.
+Definition c07_cfg : cfg := mkCfg 45000 5000 1 true.
 Definition c07_prim : frame := mkF 1 129 1 0 0 0 [177; 4; 0; 0; 0; 1].
 Definition c07_in (sys : Z) : frame := mkF 1 133 7 0 0 sys [177; 4; 0; 0; 0; 9].
 Definition c07_acts : list action :=
